@@ -112,21 +112,42 @@ view == <<reps, out, bout, pc, gst, gq, gres, gz, est, list, errs, recs>>
 
 -----------------------------------------------------------------------------
 \* The probe schema.
-Types == {"S", "K", "N", "M", "R", "Rm", "R2", "Rm2", "R3", "Rm3", "C", "Cm", "N2", "K2"}
+Types == {"S", "K", "N", "M", "R", "Rm", "R2", "Rm2", "R3", "Rm3", "C", "Cm", "N2", "K2", "P", "Pm"}
 AllT == Types \cup {"Zz"}              \* "Zz": a typename the schema does not know
-Multi(t) == t \in {"M", "Rm", "Rm2", "Rm3", "Cm"}          \* @entityResolver(multi: true)
+Multi(t) == t \in {"M", "Rm", "Rm2", "Rm3", "Cm", "Pm"}          \* @entityResolver(multi: true)
 \* the fields a type's @requires field needs, in SDL order (nn: non-null type):
 \* w: String, n: Int!, l: [String!]
 ReqW == [f |-> "w", nn |-> FALSE]
 ReqN == [f |-> "n", nn |-> TRUE]
 ReqL == [f |-> "l", nn |-> FALSE]
+\* P / Pm (round 4): SEVERAL @requires directives over flat and nested paths. A path is named by its
+\* dotted form; the entries below are what buildRequires collects, in SDL order of the requiring
+\* fields z, y, x:   z @requires("dimsVol dims { vol }")   y @requires("dims { wt } box { vol }")
+\*                   x @requires("dims { vol }")
+\*  (i)   flat dimsVol and nested dims { vol }: the concatenated Go names coincide (dimsVol)
+\*  (ii)  dims { vol } and dims { wt } share the prefix dims
+\*  (iii) the leaf vol under two parents: dims { vol }, box { vol }
+\*  (iv)  dims { vol } is required twice (a genuine duplicate: populated twice, same value)
+\* dimsVol: Int!, dims.vol: Int, dims.wt: Int!, box.vol: Int
+ReqP == << [f |-> "dimsVol", nn |-> TRUE], [f |-> "dims.vol", nn |-> FALSE], [f |-> "dims.wt", nn |-> TRUE],
+          [f |-> "box.vol", nn |-> FALSE], [f |-> "dims.vol", nn |-> FALSE] >>
 Req(t) == CASE t \in {"R", "Rm"} -> <<ReqW>>
             [] t \in {"R2", "Rm2"} -> <<ReqW, ReqN>>
             [] t \in {"R3", "Rm3"} -> <<ReqW, ReqN, ReqL>>
+            [] t \in {"P", "Pm"} -> ReqP
             [] OTHER -> << >>
 HasReq(t) == Req(t) # << >>
+\* the distinct required paths of a type = the slots of the entity the population step fills, in
+\* order of first appearance (a duplicated path is one slot)
+RECURSIVE Dedup(_, _)
+Dedup(sq, seen) == IF sq = << >> THEN << >>
+                   ELSE IF Head(sq).f \in seen THEN Dedup(Tail(sq), seen)
+                   ELSE <<Head(sq).f>> \o Dedup(Tail(sq), seen \cup {Head(sq).f})
+SlotsTab == [t \in {"S", "K", "N", "M", "R", "Rm", "R2", "Rm2", "R3", "Rm3", "C", "Cm", "N2", "K2", "P", "Pm", "Zz", ""}
+               |-> Dedup(Req(t), {})]
+Slots(t) == SlotsTab[t]
 BatchRes == {"findManyMByIDs", "findManyMByAlts", "findManyRmByIDs", "findManyRm2ByIDs", "findManyRm3ByIDs",
-             "findManyCmByPAndQs"}
+             "findManyCmByPAndQs", "findManyPmByIDs"}
 
 \* entity resolvers in declaration order (= order of the @key directives), with their key fields;
 \* nn: the key fields are non-null types (unmarshalling a missing / null value FAILS for those,
@@ -146,6 +167,8 @@ Res(t) ==
     [] t = "Cm" -> << [n |-> "findManyCmByPAndQs", f |-> {"p", "q"}, nn |-> FALSE] >>
     [] t = "N2" -> << [n |-> "findN2ByOAAndOb", f |-> {"o.a", "o.b"}, nn |-> FALSE] >>
     [] t = "K2" -> << [n |-> "findK2ByBAndC", f |-> {"b", "c"}, nn |-> FALSE], [n |-> "findK2ByA", f |-> {"a"}, nn |-> FALSE] >>
+    [] t = "P"  -> << [n |-> "findPByID", f |-> {"id"}, nn |-> TRUE] >>
+    [] t = "Pm" -> << [n |-> "findManyPmByIDs", f |-> {"id"}, nn |-> TRUE] >>
     [] OTHER    -> << >>
 
 \* Representation kinds: t = __typename ("" = missing / not a string), k = status of key fields
@@ -249,6 +272,32 @@ KindDef(name) ==
     [] name = "Cm:vb" -> [t |-> "Cm", k |-> [p |-> "v", q |-> "badv"], q |-> << >>]
     [] name = "Cm:bv" -> [t |-> "Cm", k |-> [p |-> "badv", q |-> "v"], q |-> << >>]
     [] name = "Rmnull" -> [t |-> "Rm", k |-> [id |-> "null"], q |-> [w |-> "v"]]
+    [] name = "P" -> [t |-> "P", k |-> [id |-> "v"], q |-> ("dimsVol" :> "v" @@ "dims.vol" :> "v" @@ "dims.wt" :> "v" @@ "box.vol" :> "v")]
+    [] name = "P:1b" -> [t |-> "P", k |-> [id |-> "v"], q |-> ("dimsVol" :> "bad" @@ "dims.vol" :> "v" @@ "dims.wt" :> "v" @@ "box.vol" :> "v")]
+    [] name = "P:1n" -> [t |-> "P", k |-> [id |-> "v"], q |-> ("dimsVol" :> "null" @@ "dims.vol" :> "v" @@ "dims.wt" :> "v" @@ "box.vol" :> "v")]
+    [] name = "P:1a" -> [t |-> "P", k |-> [id |-> "v"], q |-> ("dimsVol" :> "absent" @@ "dims.vol" :> "v" @@ "dims.wt" :> "v" @@ "box.vol" :> "v")]
+    [] name = "P:2b" -> [t |-> "P", k |-> [id |-> "v"], q |-> ("dimsVol" :> "v" @@ "dims.vol" :> "bad" @@ "dims.wt" :> "v" @@ "box.vol" :> "v")]
+    [] name = "P:2n" -> [t |-> "P", k |-> [id |-> "v"], q |-> ("dimsVol" :> "v" @@ "dims.vol" :> "null" @@ "dims.wt" :> "v" @@ "box.vol" :> "v")]
+    [] name = "P:2a" -> [t |-> "P", k |-> [id |-> "v"], q |-> ("dimsVol" :> "v" @@ "dims.vol" :> "absent" @@ "dims.wt" :> "v" @@ "box.vol" :> "v")]
+    [] name = "P:3b" -> [t |-> "P", k |-> [id |-> "v"], q |-> ("dimsVol" :> "v" @@ "dims.vol" :> "v" @@ "dims.wt" :> "bad" @@ "box.vol" :> "v")]
+    [] name = "P:3n" -> [t |-> "P", k |-> [id |-> "v"], q |-> ("dimsVol" :> "v" @@ "dims.vol" :> "v" @@ "dims.wt" :> "null" @@ "box.vol" :> "v")]
+    [] name = "P:3a" -> [t |-> "P", k |-> [id |-> "v"], q |-> ("dimsVol" :> "v" @@ "dims.vol" :> "v" @@ "dims.wt" :> "absent" @@ "box.vol" :> "v")]
+    [] name = "P:4b" -> [t |-> "P", k |-> [id |-> "v"], q |-> ("dimsVol" :> "v" @@ "dims.vol" :> "v" @@ "dims.wt" :> "v" @@ "box.vol" :> "bad")]
+    [] name = "P:4n" -> [t |-> "P", k |-> [id |-> "v"], q |-> ("dimsVol" :> "v" @@ "dims.vol" :> "v" @@ "dims.wt" :> "v" @@ "box.vol" :> "null")]
+    [] name = "P:4a" -> [t |-> "P", k |-> [id |-> "v"], q |-> ("dimsVol" :> "v" @@ "dims.vol" :> "v" @@ "dims.wt" :> "v" @@ "box.vol" :> "absent")]
+    [] name = "Pm" -> [t |-> "Pm", k |-> [id |-> "v"], q |-> ("dimsVol" :> "v" @@ "dims.vol" :> "v" @@ "dims.wt" :> "v" @@ "box.vol" :> "v")]
+    [] name = "Pm:1b" -> [t |-> "Pm", k |-> [id |-> "v"], q |-> ("dimsVol" :> "bad" @@ "dims.vol" :> "v" @@ "dims.wt" :> "v" @@ "box.vol" :> "v")]
+    [] name = "Pm:1n" -> [t |-> "Pm", k |-> [id |-> "v"], q |-> ("dimsVol" :> "null" @@ "dims.vol" :> "v" @@ "dims.wt" :> "v" @@ "box.vol" :> "v")]
+    [] name = "Pm:1a" -> [t |-> "Pm", k |-> [id |-> "v"], q |-> ("dimsVol" :> "absent" @@ "dims.vol" :> "v" @@ "dims.wt" :> "v" @@ "box.vol" :> "v")]
+    [] name = "Pm:2b" -> [t |-> "Pm", k |-> [id |-> "v"], q |-> ("dimsVol" :> "v" @@ "dims.vol" :> "bad" @@ "dims.wt" :> "v" @@ "box.vol" :> "v")]
+    [] name = "Pm:2n" -> [t |-> "Pm", k |-> [id |-> "v"], q |-> ("dimsVol" :> "v" @@ "dims.vol" :> "null" @@ "dims.wt" :> "v" @@ "box.vol" :> "v")]
+    [] name = "Pm:2a" -> [t |-> "Pm", k |-> [id |-> "v"], q |-> ("dimsVol" :> "v" @@ "dims.vol" :> "absent" @@ "dims.wt" :> "v" @@ "box.vol" :> "v")]
+    [] name = "Pm:3b" -> [t |-> "Pm", k |-> [id |-> "v"], q |-> ("dimsVol" :> "v" @@ "dims.vol" :> "v" @@ "dims.wt" :> "bad" @@ "box.vol" :> "v")]
+    [] name = "Pm:3n" -> [t |-> "Pm", k |-> [id |-> "v"], q |-> ("dimsVol" :> "v" @@ "dims.vol" :> "v" @@ "dims.wt" :> "null" @@ "box.vol" :> "v")]
+    [] name = "Pm:3a" -> [t |-> "Pm", k |-> [id |-> "v"], q |-> ("dimsVol" :> "v" @@ "dims.vol" :> "v" @@ "dims.wt" :> "absent" @@ "box.vol" :> "v")]
+    [] name = "Pm:4b" -> [t |-> "Pm", k |-> [id |-> "v"], q |-> ("dimsVol" :> "v" @@ "dims.vol" :> "v" @@ "dims.wt" :> "v" @@ "box.vol" :> "bad")]
+    [] name = "Pm:4n" -> [t |-> "Pm", k |-> [id |-> "v"], q |-> ("dimsVol" :> "v" @@ "dims.vol" :> "v" @@ "dims.wt" :> "v" @@ "box.vol" :> "null")]
+    [] name = "Pm:4a" -> [t |-> "Pm", k |-> [id |-> "v"], q |-> ("dimsVol" :> "v" @@ "dims.vol" :> "v" @@ "dims.wt" :> "v" @@ "box.vol" :> "absent")]
 AllKinds == {"S", "Smiss", "Snull", "Ka", "Kbc", "Kboth", "Kanull", "Kb",
              "N", "Nbad", "Nmiss", "Mid", "Malt", "Mmiss", "U", "T0",
              "R", "R:1b", "R:1n", "R:1a", "Rm", "Rm:1b", "Rm:1n", "Rm:1a",
@@ -259,14 +308,21 @@ AllKinds == {"S", "Smiss", "Snull", "Ka", "Kbc", "Kboth", "Kanull", "Kb",
              "Rm3:3n", "Rm3:3a", "Rmnull",
              "C", "C:vn", "C:nv", "C:nn", "C:va", "C:av", "C:na", "Cm", "Cm:vn", "Cm:nv", "Cm:nn", "Cm:va",
              "Cm:av", "Cm:na", "N2", "N2:vn", "N2:nv", "N2:nn", "N2:va", "N2:av", "N2:na", "N2:bad", "Kbcn", "Kbnc", "Kbncn", "Kanbcn", "K2", "K2:cn", "K2:cn-", "K2:bncn", "K2:ca",
-             "S:kb", "Mid:kb", "C:vb", "Cm:vb", "Cm:bv"}
+             "S:kb", "Mid:kb", "C:vb", "Cm:vb", "Cm:bv",
+             "P", "P:1b", "P:1n", "P:1a", "P:2b", "P:2n", "P:2a", "P:3b", "P:3n", "P:3a", "P:4b",
+             "P:4n", "P:4a", "Pm", "Pm:1b", "Pm:1n", "Pm:1a", "Pm:2b", "Pm:2n", "Pm:2a", "Pm:3b",
+             "Pm:3n", "Pm:3a", "Pm:4b", "Pm:4n", "Pm:4a"}
 \* (a constant table: TLC evaluates it once, instead of scanning the CASE at every use)
 KindTab == [kn \in AllKinds |-> KindDef(kn)]
 Kind(name) == KindTab[name]
 ReqKinds == {kn \in AllKinds : Kind(kn).q # << >>}
 
-Null == [r |-> "", i |-> 0, w |-> 0]
-Ent(r, i, w) == [r |-> r, i |-> i, w |-> w]
+\* an element: the resolver that produced it, the index its key names, the index its @requires
+\* values name, and per slot (distinct required path) of its type the value that slot holds:
+\* [i, p] = "the value representation i carried for path p", [0, 0] = null
+Null == [r |-> "", i |-> 0, w |-> 0, ps |-> << >>]
+Ent(r, i, w, ps) == [r |-> r, i |-> i, w |-> w, ps |-> ps]
+NoVal == [i |-> 0, p |-> 0]
 
 Min(S) == CHOOSE x \in S : \A y \in S : x <= y
 RECURSIVE AscSeq(_)
@@ -294,6 +350,24 @@ ReqOK(kd) == \A j \in 1..Len(Req(kd.t)) :
                LET rq == Req(kd.t)[j] IN kd.q[rq.f] = "v" \/ (~rq.nn /\ kd.q[rq.f] \in {"null", "absent"})
 \* the index the echoed @requires values name (0: the representation carries none)
 WIdx(kd, i) == IF \E f \in DOMAIN kd.q : kd.q[f] = "v" THEN i ELSE 0
+\* THE REQUIRES-POPULATION STEP (resolveEntity inline / the populator / the zip of
+\* resolveManyEntities), for a representation whose values coerce (ReqOK): one assignment per
+\* entry of Req(t), in order, each from the value representation i carries for THAT path - so slot
+\* s ends up holding (i, s) when the representation carries a value for path s, and null when it
+\* carries null / nothing for a nullable path. Assigning a duplicated path twice changes nothing.
+RECURSIVE Populate(_, _, _, _)
+Populate(ent, rq, kd, i) ==
+  IF rq = << >> THEN ent
+  ELSE LET f == Head(rq).f
+           s == CHOOSE x \in 1..Len(Slots(kd.t)) : Slots(kd.t)[x] = f IN
+       Populate([ent EXCEPT ![s] = IF kd.q[f] = "v" THEN [i |-> i, p |-> s] ELSE NoVal], Tail(rq), kd, i)
+PsOf(kd, i) == IF Slots(kd.t) = << >> THEN << >>
+               ELSE Populate([s \in 1..Len(Slots(kd.t)) |-> NoVal], Req(kd.t), kd, i)
+\* what the property prescribes, stated without the algorithm: every slot holds the value
+\* representation i carries for that slot's own path
+PsIdeal(kd, i) == IF Slots(kd.t) = << >> THEN << >>
+                  ELSE [s \in 1..Len(Slots(kd.t)) |->
+                          IF kd.q[Slots(kd.t)[s]] = "v" THEN [i |-> i, p |-> s] ELSE NoVal]
 
 N == Len(reps)
 Idx == 1..N
@@ -474,7 +548,7 @@ ZipStep(t) ==
             /\ UNCHANGED <<recs, list>>
      ELSE /\ list' = [list EXCEPT ![p.ix[j]] =
                         IF gres[t][j] = "nil" THEN Null
-                        ELSE Ent(p.r, p.ky[j], WIdx(K(p.ix[j]), p.ix[j]))]
+                        ELSE Ent(p.r, p.ky[j], WIdx(K(p.ix[j]), p.ix[j]), PsOf(K(p.ix[j]), p.ix[j]))]
           /\ gz' = [gz EXCEPT ![t] = j + 1]
           /\ UNCHANGED <<errs, recs, gq, gst>>
   /\ UNCHANGED <<reps, out, bout, pc, gres, est, order>>
@@ -520,7 +594,7 @@ EntityReturn(i) ==
                  THEN \* a required value does not coerce: inline `return nil, err`, the explicit populator's
                       \* error, or (computed_requires) the error of the non-null field's resolver
                       errs' = errs + 1 /\ UNCHANGED <<recs, list>>
-                 ELSE /\ list' = [list EXCEPT ![i] = Ent(r.n, KeyIdx(r, K(i), i), WIdx(K(i), i))]
+                 ELSE /\ list' = [list EXCEPT ![i] = Ent(r.n, KeyIdx(r, K(i), i), WIdx(K(i), i), PsOf(K(i), i))]
                       /\ UNCHANGED <<errs, recs>>
   /\ est' = [est EXCEPT ![i] = "done"]
   /\ UNCHANGED <<reps, out, bout, pc, gst, gq, gres, gz>>
@@ -591,6 +665,7 @@ ElemOK(i) ==
   ELSE /\ list[i].r \in Eligible(i)
        /\ list[i].i = i                                    \* resolved from i's own key
        /\ list[i].w = WIdx(K(i), i)                       \* @requires from i's own representation
+       /\ list[i].ps = PsIdeal(K(i), i)                   \* every required path holds i's value for THAT path
 
 \* failure units (each must be visible as an error of its own): every failing representation
 \* that is resolved on its own, every failing batch call, every batch type some of whose
@@ -673,7 +748,7 @@ TypeOK ==
 \* (scenario, completion order) with what the model of the current code answers and what the
 \* property prescribes for each index.
 IdealAt(i) == [null |-> ExpNull(i), fail |-> Failed(i), rs |-> Eligible(i), i |-> i,
-               w |-> WIdx(K(i), i)]
+               w |-> WIdx(K(i), i), ps |-> PsIdeal(K(i), i)]
 EmitDone ==
   pc = "done" =>
     PrintT(ToJson([reps |-> reps, out |-> out, bout |-> bout, order |-> order,
